@@ -164,6 +164,15 @@ func (c *Connection) drainFrames(ch <-chan *protocol.Frame) {
 			if c.onFrame == nil {
 				continue
 			}
+			// Frames still queued when the connection is closed are dropped:
+			// select may keep preferring this case while frames remain, and a
+			// stream opened from such a frame would belong to nobody (its
+			// acknowledgement would go out over a later connection to the peer).
+			select {
+			case <-c.closed:
+				return
+			default:
+			}
 			func() {
 				defer func() {
 					_ = recover()
